@@ -3,8 +3,7 @@
 // One source, two modes (and a third build: -DVF_PLAIN_MAIN = worker only, linked against the rel library):
 //   * libFuzzer target (default):  LLVMFuzzerTestOneInput runs the loader on the fuzzer's bytes.
 //   * worker (argv contains --vf-worker=<rfd>,<wfd>): documents arrive on <rfd> as <u32 length><u32 flags><bytes>
-//     (flags: 1 = also run mj_loadXML through a VFS, 2 = parse only, no compile/save, 4 = long time limit), each document is
-//     executed in a forked child; one result
+//     (flags: 1 = also run mj_loadXML through a VFS, 2 = parse only, no compile/save), one result
 //     line per document is written to <wfd> (used by checks/c37.py for the schema-generated documents, so
 //     that a document that kills the process is attributed to exactly that document).
 //
@@ -405,6 +404,9 @@ int Worker(int rfd, int wfd) {
   Install();
   FILE* out = fdopen(wfd, "w");
   if (!out) return 3;
+#ifdef VF_PLAIN_MAIN
+  for (int sg : {SIGSEGV, SIGABRT, SIGBUS, SIGFPE, SIGILL}) signal(sg, CrashHandler);
+#endif
   fprintf(out, "READY\n");
   fflush(out);
   std::vector<uint8_t> buf;
@@ -415,37 +417,19 @@ int Worker(int rfd, int wfd) {
     buf.resize(len + 1);
     if (len && !ReadAll(rfd, buf.data(), len)) break;
     buf[len] = 0;
-    // every document runs in a forked child: a document that kills the process (sanitizer report, signal, exit())
-    // is attributed to exactly that document and costs no restart; abandoned calls (longjmp) cannot leak into the next one
+    Result r;
+    RunOne(buf.data(), len, (flags & 1) != 0, (flags & 2) != 0, r);
+    fprintf(out, "R\t%d\t%d\t%d\t%d\t%d\t%s\t%s\t%s\t%s\t%zu\t%zu", r.parse, r.compile, r.save, r.load, r.reached,
+            Esc(r.perr).c_str(), Esc(r.cerr).c_str(), Esc(r.serr).c_str(), Esc(r.lerr).c_str(), r.escapes.size(),
+            r.oracle.size());
+    for (const Escape& e : r.escapes)
+      fprintf(out, "\t%s\t%s\t%s\t%s", Esc(e.phase).c_str(), Esc(e.kind).c_str(), Esc(e.msg).c_str(), Esc(e.site).c_str());
+    for (const std::string& o : r.oracle) fprintf(out, "\t%s", Esc(o).c_str());
+    fprintf(out, "\n");
     fflush(out);
-    fflush(stderr);
-    pid_t pid = fork();
-    if (pid < 0) return 4;
-    if (pid == 0) {
-      prctl(PR_SET_PDEATHSIG, SIGKILL);
-#ifdef VF_PLAIN_MAIN
-      for (int sg : {SIGSEGV, SIGABRT, SIGBUS, SIGFPE, SIGILL}) signal(sg, CrashHandler);
-#endif
-      alarm((flags & 4) ? 300 : 60);
-      Result r;
-      RunOne(buf.data(), len, (flags & 1) != 0, (flags & 2) != 0, r);
-      fprintf(out, "R\t%d\t%d\t%d\t%d\t%d\t%s\t%s\t%s\t%s\t%zu\t%zu", r.parse, r.compile, r.save, r.load, r.reached,
-              Esc(r.perr).c_str(), Esc(r.cerr).c_str(), Esc(r.serr).c_str(), Esc(r.lerr).c_str(), r.escapes.size(),
-              r.oracle.size());
-      for (const Escape& e : r.escapes)
-        fprintf(out, "\t%s\t%s\t%s\t%s", Esc(e.phase).c_str(), Esc(e.kind).c_str(), Esc(e.msg).c_str(), Esc(e.site).c_str());
-      for (const std::string& o : r.oracle) fprintf(out, "\t%s", Esc(o).c_str());
-      fprintf(out, "\n");
-      fflush(out);
-      _exit(0);
-    }
-    int st = 0;
-    while (waitpid(pid, &st, 0) < 0 && errno == EINTR) {}
-    if (!(WIFEXITED(st) && WEXITSTATUS(st) == 0)) {
-      // the child did not finish: "D <signal> <exit code>"; whatever it printed is in the stderr file
-      fprintf(out, "D\t%d\t%d\n", WIFSIGNALED(st) ? WTERMSIG(st) : 0, WIFEXITED(st) ? WEXITSTATUS(st) : -1);
-      fflush(out);
-    }
+    // abandoned calls (longjmp out of an mju_error) leave the library in an undefined state: start afresh
+    for (const Escape& e : r.escapes)
+      if (e.kind == "mju_error") { fflush(nullptr); _exit(0); }
   }
   return 0;
 }
